@@ -5,7 +5,8 @@ LEAN_MODULES = ["PomerolModel.Properties.C12"]
 GENERATED = ["vertex", "gf"]
 THEOREMS = ["Pomerol.Properties.C12." + t for t in (
     "commutator_with_quadratic", "equation_of_motion", "free_propagator", "free_propagator_is_inverse",
-    "vertex_is_chi_minus_chi0")]
+    "vertex_is_chi_minus_chi0", "vertex_vanishes_iff", "two_particle_equation_of_motion", "two_particle_function_factorises",
+    "two_particle_function_factorises_def", "vertex_vanishes_for_quadratic_hamiltonians")]
 RULE = ("a case = random number-conserving quadratic Hamiltonian (hoppings incl. spin-flip ones, levels, degenerate/zero/"
         "block-diagonal single-particle matrices, real and complex Hermitian), all (i,j), Matsubara numbers and complex z; "
         "G compared with the inverse of (z-h) computed by Gaussian elimination, the vertex with 0 for sampled quadruples "
@@ -13,14 +14,18 @@ RULE = ("a case = random number-conserving quadratic Hamiltonian (hoppings incl.
 TRUSTED = ["harness/pipe.cpp; numeric oracle (complex Gauss-Jordan inverse in lean/Driver/NumericRun.lean)"]
 ASSUMPTIONS = ["the vanishing of the vertex for quadratic models (Wick's theorem for Gaussian states) is NOT a Lean theorem: "
                "it is checked by differential execution only"]
-LEVEL_TEXT = ("Proof (first half): from the CAR alone [c_i, sum h_kl c+_k c_l] = sum_l h_il c_l, hence in the eigenbasis "
+LEVEL_TEXT = ("Proof: from the CAR alone [c_i, sum h_kl c+_k c_l] = sum_l h_il c_l, hence in the eigenbasis "
               "(E_m - E_n)(c_i)_nm = sum_l h_il (c_l)_nm, hence with the Lehmann form and the residue sum rule "
               "(z - h) G(z) = 1 and G(z) = (z - h)^-1 for every (Hermitian or not) h, degenerate levels included, at every z "
-              "that is not a pole. Second half PARTIAL: the vertex is chi - chi0 (theorem, extracted formula), and chi equals "
-              "its definition (C02), but Wick's theorem itself is not formalised; vanishing of the vertex is established by "
-              "the differential oracle on random quadratic models.")
-LEVEL_NOTE = "Trusted: as C01; Wick's theorem for Gaussian states not formalised (named gap)."
-TECHNIQUE = "Lean 4/Mathlib proof of the free propagator from the CAR + differential oracle for the vertex"
+              "that is not a pole. Second half (Wick): the frequency-space equation of motion of chi4 "
+              "sum_i' (z0 - h)_ii' chi_i'jkl = beta([k2=k3] delta_il G_jk - [k1=k3] delta_ik G_jl) is derived at the Lehmann level "
+              "(cyclic rotation of world lines, all resonance classes, CAR contractions) and inverted with the free propagator: "
+              "chi_ijkl = beta([k2=k3] G_il G_jk - [k1=k3] G_ik G_jl) = chi0 for every quadratic Hamiltonian, every index quadruple "
+              "and every triple of fermionic Matsubara numbers (coinciding frequencies and degenerate levels included), at the "
+              "Lehmann and at the definition level; hence the extracted Vertex4::value formula evaluates to 0. Tie: differential "
+              "oracle on random quadratic models (free propagator and vanishing vertex within the documented dropped-term budgets).")
+LEVEL_NOTE = "Trusted: as C01/C02 (the library's chi equals chiLehmann by C02's refinement theorems + numeric oracle; IEEE rounding and the 1e-8 term tolerances are not modelled in the Wick theorem)."
+TECHNIQUE = "Lean 4/Mathlib proof of the free propagator and of Wick's factorisation of chi4 (equation of motion at the Lehmann level) + differential oracle"
 DESIGN_REF = "DESIGN.md section 6, C12"
 
 
